@@ -31,6 +31,12 @@ Generated/SsaNative.vos Generated/SsaNative.vok Generated/SsaNative.required_vos
 Generated/SsaWasm.vo Generated/SsaWasm.glob Generated/SsaWasm.v.beautified Generated/SsaWasm.required_vo: Generated/SsaWasm.v Model/Flow.vo
 Generated/SsaWasm.vio: Generated/SsaWasm.v Model/Flow.vio
 Generated/SsaWasm.vos Generated/SsaWasm.vok Generated/SsaWasm.required_vos: Generated/SsaWasm.v Model/Flow.vos
+Model/Mem.vo Model/Mem.glob Model/Mem.v.beautified Model/Mem.required_vo: Model/Mem.v 
+Model/Mem.vio: Model/Mem.v 
+Model/Mem.vos Model/Mem.vok Model/Mem.required_vos: Model/Mem.v 
+Proofs/MemProofs.vo Proofs/MemProofs.glob Proofs/MemProofs.v.beautified Proofs/MemProofs.required_vo: Proofs/MemProofs.v Model/Mem.vo
+Proofs/MemProofs.vio: Proofs/MemProofs.v Model/Mem.vio
+Proofs/MemProofs.vos Proofs/MemProofs.vok Proofs/MemProofs.required_vos: Proofs/MemProofs.v Model/Mem.vos
 Spec/Rfc4648.vo Spec/Rfc4648.glob Spec/Rfc4648.v.beautified Spec/Rfc4648.required_vo: Spec/Rfc4648.v Base/Prelude.vo
 Spec/Rfc4648.vio: Spec/Rfc4648.v Base/Prelude.vio
 Spec/Rfc4648.vos Spec/Rfc4648.vok Spec/Rfc4648.required_vos: Spec/Rfc4648.v Base/Prelude.vos
@@ -148,6 +154,12 @@ Properties/C09.vos Properties/C09.vok Properties/C09.required_vos: Properties/C0
 Properties/C10.vo Properties/C10.glob Properties/C10.v.beautified Properties/C10.required_vo: Properties/C10.v Base/Prelude.vo Hash/Sha.vo Model/Errors.vo Model/Decoder.vo Model/Derive.vo Model/Otp.vo Model/Ocra.vo Model/Utils.vo Model/Random.vo Model/Suite.vo Model/Url.vo Proofs/OtpProofs.vo Proofs/OcraProofs.vo Proofs/TotalProofs.vo
 Properties/C10.vio: Properties/C10.v Base/Prelude.vio Hash/Sha.vio Model/Errors.vio Model/Decoder.vio Model/Derive.vio Model/Otp.vio Model/Ocra.vio Model/Utils.vio Model/Random.vio Model/Suite.vio Model/Url.vio Proofs/OtpProofs.vio Proofs/OcraProofs.vio Proofs/TotalProofs.vio
 Properties/C10.vos Properties/C10.vok Properties/C10.required_vos: Properties/C10.v Base/Prelude.vos Hash/Sha.vos Model/Errors.vos Model/Decoder.vos Model/Derive.vos Model/Otp.vos Model/Ocra.vos Model/Utils.vos Model/Random.vos Model/Suite.vos Model/Url.vos Proofs/OtpProofs.vos Proofs/OcraProofs.vos Proofs/TotalProofs.vos
+Properties/C11.vo Properties/C11.glob Properties/C11.v.beautified Properties/C11.required_vo: Properties/C11.v Model/Mem.vo Proofs/MemProofs.vo Model/Flow.vo Generated/SsaNative.vo Generated/SsaWasm.vo
+Properties/C11.vio: Properties/C11.v Model/Mem.vio Proofs/MemProofs.vio Model/Flow.vio Generated/SsaNative.vio Generated/SsaWasm.vio
+Properties/C11.vos Properties/C11.vok Properties/C11.required_vos: Properties/C11.v Model/Mem.vos Proofs/MemProofs.vos Model/Flow.vos Generated/SsaNative.vos Generated/SsaWasm.vos
+Properties/C12.vo Properties/C12.glob Properties/C12.v.beautified Properties/C12.required_vo: Properties/C12.v Base/Prelude.vo Model/Derive.vo Model/Flow.vo Generated/SsaNative.vo Generated/SsaWasm.vo Proofs/OcraProofs.vo
+Properties/C12.vio: Properties/C12.v Base/Prelude.vio Model/Derive.vio Model/Flow.vio Generated/SsaNative.vio Generated/SsaWasm.vio Proofs/OcraProofs.vio
+Properties/C12.vos Properties/C12.vok Properties/C12.required_vos: Properties/C12.v Base/Prelude.vos Model/Derive.vos Model/Flow.vos Generated/SsaNative.vos Generated/SsaWasm.vos Proofs/OcraProofs.vos
 Properties/C13.vo Properties/C13.glob Properties/C13.v.beautified Properties/C13.required_vo: Properties/C13.v Base/Prelude.vo Hash/Sha.vo Generated/Tables.vo Generated/ErrTexts.vo Model/Errors.vo Model/Decoder.vo Model/Derive.vo Model/Otp.vo Model/Ocra.vo Proofs/DeriveProofs.vo Proofs/OtpProofs.vo Proofs/OcraProofs.vo
 Properties/C13.vio: Properties/C13.v Base/Prelude.vio Hash/Sha.vio Generated/Tables.vio Generated/ErrTexts.vio Model/Errors.vio Model/Decoder.vio Model/Derive.vio Model/Otp.vio Model/Ocra.vio Proofs/DeriveProofs.vio Proofs/OtpProofs.vio Proofs/OcraProofs.vio
 Properties/C13.vos Properties/C13.vok Properties/C13.required_vos: Properties/C13.v Base/Prelude.vos Hash/Sha.vos Generated/Tables.vos Generated/ErrTexts.vos Model/Errors.vos Model/Decoder.vos Model/Derive.vos Model/Otp.vos Model/Ocra.vos Proofs/DeriveProofs.vos Proofs/OtpProofs.vos Proofs/OcraProofs.vos
